@@ -103,6 +103,10 @@ class _Return(Exception):
         self.v = v
 
 
+class _Continue(Exception):
+    pass
+
+
 class _Break(Exception):
     pass
 
@@ -575,6 +579,8 @@ class Interp:
             return
         if k == "BreakStmt":
             raise _Break()
+        if k == "ContinueStmt":
+            raise _Continue()
         if k == "DeclStmt":
             for d in ks:
                 if d.get("kind") == "VarDecl":
